@@ -11,7 +11,7 @@ from ..gen import render
 KNOBS = {"p_macro": 0.8, "p_loop": 0.8, "p_if": 0.8, "p_import": 0.5, "p_segments": 0.3, "max_bytes": 250, "top_stmts": 9, "p_setpc": 0.0}
 DIAG = re.compile(r"^(?P<file>[^:\n]+):(?P<line>\d+):(?P<col>\d+): error: (?P<msg>.*)$", re.M)
 SEMANTIC = {"undefined-symbol", "undefined-macro", "undefined-segment", "label-redefinition", "const-redefinition", "illegal-mode", "immediate-range",
-            "branch-range", "macro-arity"}
+            "branch-range", "macro-arity", "wrong-kind-of-value"}
 
 
 def live_blocks(prog):
@@ -104,6 +104,15 @@ def make_fault(rng, prog, cls, block):
         m = rng.choice(macros)
         n = len(m.params) + rng.choice([1, 2]) if (len(m.params) == 0 or rng.random() < 0.5) else len(m.params) - 1
         return "%s(%s)" % (m.d.name, ", ".join(["1"] * n)), "last"
+    if cls == "wrong-kind-of-value":
+        # a number combined with a string, or the name of a macro where a value is needed
+        macros = [m for m in prog.all_stmts() if m.k == "macrodef"]
+        names = {getattr(x, "d", None).name for x in prog.all_stmts() if getattr(x, "d", None) is not None and x.k != "macrodef"}
+        free = [m for m in macros if m.d.name not in names]
+        if free and not extra["in_macro"] and file == prog.main and rng.random() < 0.4:
+            m = rng.choice(free)
+            return rng.choice(["lda %s", "sta %s,x", ".word %s", "lda #<%s", ".byte %s + 1"]) % m.d.name, "last"
+        return rng.choice(['.byte 1 + "a"', 'lda #1 + "abc"', '.word "a" * 2', '.byte 2 - "x", 3', 'lda "a" + 1', '.dword ("q" + "r") + 1', 'cmp #("a" == 1)']), "last"
     if cls == "malformed":
         return rng.choice(["lda #", ".byte ,", "%%%", ")", "lda (", ".const = 5", ".if { nop }", "* = ", ".loop { nop }", "sta $10,", "lda #1 2", '.text "abc']), "last"
     if cls == "unclosed-block":
@@ -112,7 +121,7 @@ def make_fault(rng, prog, cls, block):
 
 
 CLASSES = ["undefined-symbol", "undefined-macro", "undefined-segment", "label-redefinition", "const-redefinition", "illegal-mode", "immediate-range",
-           "branch-range", "macro-arity", "malformed", "unclosed-block"]
+           "branch-range", "macro-arity", "malformed", "unclosed-block", "wrong-kind-of-value"]
 SENTINEL = b"\x01\x08SENTINEL-FROM-AN-EARLIER-GOOD-BUILD"
 
 
@@ -253,7 +262,7 @@ def main(tier, seed):
     acc = run_sharded(shard, seed, tier, params)
     return finish(
         "C04", tier, seed, acc, t0, level="fault_enumeration",
-        rule="valid ProgGen programs (checked to assemble first) into which exactly one fault is injected: 11 classes (undefined symbol / "
+        rule="valid ProgGen programs (checked to assemble first) into which exactly one fault is injected: 12 classes (a number combined with a string or a macro name used as a value, undefined symbol / "
              "macro / segment, label and constant redefinition, illegal addressing mode, immediate > 255, branch out of range, wrong macro "
              "arity, malformed statement, unclosed block) at a random live position (top level, scope, macro body of an invoked macro, "
              "loop body, taken conditional branch, segment block, imported file). `mos build --error-style Short` runs in a scratch "
